@@ -44,6 +44,8 @@ func c08Progs() []c08Prog {
 		{"DI;HALT", 0x0100, []Poke{{0x0100, []uint8{0xF3, 0x76}}, hINT, hNMI}, []uint16{0x0100, 0x0101, 0x0038, 0x0066}, true},
 		{"prefix-only tail", 0x0100, []Poke{{0x0100, []uint8{0xDD, 0xDD, 0xFD, 0x00, 0xED, 0x00, 0x76}}, hINT, hNMI}, []uint16{0x0100, 0x0101, 0x0102, 0x0104, 0x0106}, false},
 		{"JP over a HALT", 0x0100, []Poke{{0x0100, []uint8{0xC3, 0x04, 0x01, 0x76, 0x3C, 0x76}}, hINT, hNMI}, []uint16{0x0100, 0x0103, 0x0104, 0x0105}, true},
+		{"HALT at FFFF", 0xFFFE, []Poke{{0xFFFE, []uint8{0x00, 0x76}}, {0x0000, []uint8{0x3C, 0x76}}, hINT, hNMI}, []uint16{0xFFFE, 0xFFFF, 0x0000, 0x0001}, false},
+		{"HALT at 0000 reached by a jump", 0x0100, []Poke{{0x0100, []uint8{0xC3, 0x00, 0x00}}, {0x0000, []uint8{0x76, 0x3C}}, hINT, hNMI}, []uint16{0x0100, 0x0000, 0x0001, 0xFFFF}, true},
 		{"HALT;HALT", 0x0100, []Poke{{0x0100, []uint8{0x76, 0x76}}, hINT, hNMI}, []uint16{0x0100, 0x0101}, false},
 	}
 }
@@ -230,7 +232,7 @@ func checkC08(c *Ctx) {
 		cases = append(cases, c08Case{Prog: pi, NilMap: true, Runs: 4, J: -1, Stale: true, Salt: c.Salt})
 		cases = append(cases, c08Case{Prog: pi, BPs: []uint16{p.pc}, Runs: 4, J: -1, Stale: true, Salt: c.Salt})
 	}
-	c.Rule = fmt.Sprintf("%d terminating programs (straight line; HALT first; multi-byte instruction with a breakpoint inside; code wrapping FFFF->0000 into a HALT; DJNZ loop with a breakpoint on its head; LDIR with a breakpoint on itself; CALL/RET; EI + IN/OUT with handlers; DI;HALT; prefix-only tail; JP; HALT;HALT) x all subsets of each program's 2..5 candidate breakpoint addresses + nil map + stale halted indication (%d configurations) x history Run;Run;Run;Run x {no request, NMI or IM1 raised from inside the memory/port callback at every access index j of the history}. Oracle: Step-driven twin with the stop rule applied outside. Non-trivial = histories with at least one breakpoint hit or callback-raised request (counted).", len(progs), len(cases))
+	c.Rule = fmt.Sprintf("%d terminating programs (straight line; HALT first; multi-byte instruction with a breakpoint inside; code wrapping FFFF->0000 into a HALT; DJNZ loop with a breakpoint on its head; LDIR with a breakpoint on itself; CALL/RET; EI + IN/OUT with handlers; DI;HALT; prefix-only tail; JP; HALT at FFFF; HALT at 0000; HALT;HALT) x all subsets of each program's 2..5 candidate breakpoint addresses + nil map + stale halted indication (%d configurations) x history Run;Run;Run;Run x {no request, NMI or IM1 raised from inside the memory/port callback at every access index j of the history}. Oracle: Step-driven twin with the stop rule applied outside. Non-trivial = histories with at least one breakpoint hit or callback-raised request (counted).", len(progs), len(cases))
 	c.Bound = "4 Run calls; <=1 callback-raised request at every access index (thorough: <=2, every pair of indices)"
 	bg := obsBackground(c)
 	type sidePair struct{ a, b *c08Side }
